@@ -8,12 +8,41 @@ package c07
 // arrives belongs to the caller the controller has just let go — no tagging of requests, no
 // timing. After every step the controller waits (event-driven) until that caller has either
 // returned or parked its next request.
+//
+// ROUTES. Which object a caller goes through is part of the input (4th element, optional):
+//
+//	(absent)  caller c uses slot c mod 4: even slots local.Service.NewRunNumber (a Service of
+//	          its own per slot), odd slots ConsulSource.GetNextUInt32 directly
+//	(svc k)   caller c calls NewRunNumber on Service number c mod k (k = 1..4): k = 1 is ONE
+//	          apricot instance serving every caller — the situation in production, where all
+//	          environments of a core (and every remote client) share one local.Service — so
+//	          calls OVERLAP INSIDE one Service object
+//
+// The model is blind to the route: every caller runs read ; cas itself, whatever it goes through.
+//
+// SILENT CALLERS. A caller that has been let go and shows no event (no request, no return) within
+// the ceiling is marked `silent` and the schedule goes on without it: it is blocked on something
+// other than Consul (or merely slow — the controller cannot tell, and never needs to). Nothing is
+// concluded from the silence itself:
+//   - if the silent caller RETURNS later, that return is an event, and the fact that no request
+//     whatsoever arrived at the simulator between its launch and its return is an observation:
+//     the caller answered without talking to Consul. It is recorded with the requests Consul
+//     processed for it — none — and the end step `len(schedule)` (an upper bound);
+//   - if ANY request arrives while a silent caller exists, it can no longer be attributed ⇒ the
+//     case is inconclusive (err);
+//   - a caller still silent when the schedule is over and not returning by itself ⇒ inconclusive.
+//
+// BUDGET. Every ceiling hit is counted (`trip`). On the unchanged tree none ever occurs (every
+// wait ends with an event within microseconds). A tree on which expected requests do not arrive
+// would otherwise spend the full ceiling in thousands of cases — hours; after three hits in one
+// process the ceiling drops to 250 ms, after twenty to 40 ms. A ceiling is never a verdict.
 
 import (
 	"errors"
 	"fmt"
 	"strconv"
 	"strings"
+	"sync/atomic"
 	"time"
 
 	"github.com/AliceO2Group/Control/apricot/local"
@@ -25,7 +54,22 @@ import (
 
 const runNumberKey = "o2/runtime/run_number" // what local.Service.NewRunNumber uses
 const nSlots = 4
-const waitLimit = 30 * time.Second // infrastructure guard only: exceeded ⇒ inconclusive, never a verdict
+
+var trips atomic.Int64
+
+func trip() { trips.Add(1) }
+
+// ceiling: infrastructure guard only. Exceeded ⇒ the awaited caller is `silent` or the case is
+// inconclusive — never a verdict.
+func ceiling() time.Duration {
+	switch n := trips.Load(); {
+	case n < 3:
+		return 15 * time.Second
+	case n < 20:
+		return 250 * time.Millisecond
+	}
+	return 40 * time.Millisecond
+}
 
 type callResult struct {
 	value uint32
@@ -69,15 +113,19 @@ func newRig() (*rig, error) {
 	return g, nil
 }
 
-func (g *rig) close() { g.consul.srv.Close() }
+func (g *rig) close() { g.consul.shutdown() }
 
-// call runs the real code for caller c. Even slots go through apricot's local.Service (the path
-// the core takes), odd slots call the backend directly (one of them with a leading slash, which
-// formatKey trims).
-func (g *rig) call(c int) callResult {
-	slot := c % nSlots
+// call runs the real code for caller c. shared = k of the route `(svc k)`, 0 = no route given:
+// even slots go through apricot's local.Service (the path the core takes), odd slots call the
+// backend directly (one of them with a leading slash, which formatKey trims).
+func (g *rig) call(c, shared int) callResult {
 	var v uint32
 	var err error
+	if shared > 0 {
+		v, err = g.svcs[c%shared].NewRunNumber()
+		return callResult{v, err}
+	}
+	slot := c % nSlots
 	switch {
 	case slot%2 == 0:
 		v, err = g.svcs[slot].NewRunNumber()
@@ -94,10 +142,12 @@ const (
 	phPending
 	phDone
 	phDead
+	phSilent // let go, no event seen since (see the header)
 )
 
 type callerRT struct {
 	phase      int
+	live       bool // its goroutine has been launched and has not returned
 	req        *request
 	resCh      chan callResult
 	res        callResult
@@ -137,36 +187,95 @@ func transportTrouble(err error) bool {
 }
 
 type controller struct {
-	g     *rig
-	store *kvStore
-	cs    []*callerRT
+	g       *rig
+	store   *kvStore
+	cs      []*callerRT
+	shared  int      // k of the route `(svc k)`, 0 = none
+	nSteps  int      // length of the schedule
+	returns chan int // a caller's goroutine has returned (its result is in its resCh)
 }
 
-// await waits until the goroutine behind resCh has returned (done=true) or parked a request.
-func (k *controller) await(resCh chan callResult) (rq *request, res callResult, done bool, err error) {
-	t := time.NewTimer(waitLimit)
+const (
+	evReturn  = iota // a caller returned
+	evArrival        // a request reached the simulator
+	evForeign        // the foreign operation under way finished
+	evCeiling        // nothing within the ceiling
+)
+
+type event struct {
+	kind int
+	ci   int
+	rq   *request
+	res  callResult
+}
+
+// next blocks until something happens.
+func (k *controller) next(foreign chan callResult) event {
+	t := time.NewTimer(ceiling())
 	defer t.Stop()
 	select {
-	case res = <-resCh:
-		return nil, res, true, nil
-	case rq = <-k.g.consul.arrivals:
-		return rq, callResult{}, false, nil
+	case ci := <-k.returns:
+		return event{kind: evReturn, ci: ci, res: <-k.cs[ci].resCh}
+	case rq := <-k.g.consul.arrivals:
+		return event{kind: evArrival, rq: rq}
+	case res := <-foreign:
+		return event{kind: evForeign, res: res}
 	case <-t.C:
-		return nil, callResult{}, false, fmt.Errorf("c07 harness: no event within %v", waitLimit)
+		trip()
+		return event{kind: evCeiling}
 	}
 }
 
-func (k *controller) settle(c *callerRT, step int) error {
-	rq, res, done, err := k.await(c.resCh)
-	if err != nil {
-		return err
+func (k *controller) anySilent() bool {
+	for _, c := range k.cs {
+		if c.phase == phSilent {
+			return true
+		}
 	}
-	if done {
-		c.phase, c.res, c.end, c.req = phDone, res, step, nil
-	} else {
-		c.phase, c.req = phPending, rq
+	return false
+}
+
+var errAmbiguous = fmt.Errorf("c07 harness: inconclusive: a request arrived while a caller that had shown no event within the ceiling was still out — it cannot be attributed")
+
+// returned books the return of caller ci that was NOT the one being waited for: legitimate only
+// for a silent caller (it answered without any request of its own having reached the simulator).
+func (k *controller) returned(ev event) error {
+	d := k.cs[ev.ci]
+	d.live = false
+	if d.phase != phSilent {
+		return fmt.Errorf("c07 harness: inconclusive: caller %d returned while it was not running", ev.ci)
 	}
+	d.phase, d.res, d.end, d.req = phDone, ev.res, k.nSteps, nil
 	return nil
+}
+
+// settle waits until caller ci, which has just been let go, has returned or parked its next request.
+func (k *controller) settle(ci int, step int) error {
+	c := k.cs[ci]
+	for {
+		ev := k.next(nil)
+		switch ev.kind {
+		case evReturn:
+			if ev.ci == ci {
+				c.live = false
+				c.phase, c.res, c.end, c.req = phDone, ev.res, step, nil
+				return nil
+			}
+			if err := k.returned(ev); err != nil {
+				return err
+			}
+		case evArrival:
+			if k.anySilent() {
+				ev.rq.reply <- response{code: 500, body: []byte("simulation over")}
+				return errAmbiguous
+			}
+			c.phase, c.req = phPending, ev.rq
+			return nil
+		case evCeiling:
+			c.phase, c.req = phSilent, nil
+			return nil
+		}
+	}
 }
 
 func (k *controller) record(c *callerRT, what string, args []string) {
@@ -178,7 +287,8 @@ func (k *controller) record(c *callerRT, what string, args []string) {
 }
 
 // answer processes (or refuses) c's parked request and lets c run to its next event.
-func (k *controller) answer(c *callerRT, step int, apply bool) error {
+func (k *controller) answer(ci int, step int, apply bool) error {
+	c := k.cs[ci]
 	var rp response
 	var what string
 	var args []string
@@ -189,34 +299,49 @@ func (k *controller) answer(c *callerRT, step int, apply bool) error {
 	}
 	k.record(c, what, args)
 	c.req.reply <- rp
-	return k.settle(c, step)
+	c.req = nil
+	return k.settle(ci, step)
 }
 
 func (k *controller) launch(ci int, step int) error {
 	c := k.cs[ci]
 	c.resCh = make(chan callResult, 1)
 	c.start = step
-	go func() { c.resCh <- k.g.call(ci) }()
-	return k.settle(c, step)
+	c.live = true
+	returns, shared, g := k.returns, k.shared, k.g
+	go func() {
+		c.resCh <- g.call(ci, shared)
+		returns <- ci
+	}()
+	return k.settle(ci, step)
 }
 
 // outside runs a foreign operation (through the real client, over HTTP) to completion.
 func (k *controller) outside(op func() error) error {
 	ch := make(chan callResult, 1)
 	go func() { ch <- callResult{err: op()} }()
-	for i := 0; i < 4; i++ {
-		rq, res, done, err := k.await(ch)
-		if err != nil {
-			return err
-		}
-		if done {
-			if res.err != nil {
-				return fmt.Errorf("c07 harness: foreign operation failed: %v", res.err)
+	for i := 0; i < 8; i++ {
+		ev := k.next(ch)
+		switch ev.kind {
+		case evForeign:
+			if ev.res.err != nil {
+				return fmt.Errorf("c07 harness: foreign operation failed: %v", ev.res.err)
 			}
 			return nil
+		case evReturn:
+			if err := k.returned(ev); err != nil {
+				return err
+			}
+		case evArrival:
+			if k.anySilent() {
+				ev.rq.reply <- response{code: 500, body: []byte("simulation over")}
+				return errAmbiguous
+			}
+			rp, _, _ := process(k.store, ev.rq)
+			ev.rq.reply <- rp
+		case evCeiling:
+			return fmt.Errorf("c07 harness: inconclusive: foreign operation: no event within its ceiling")
 		}
-		rp, _, _ := process(k.store, rq)
-		rq.reply <- rp
 	}
 	return fmt.Errorf("c07 harness: foreign operation did not finish")
 }
@@ -258,6 +383,14 @@ func (g *rig) runCase(input string) (string, error) {
 	if err != nil {
 		return "", err
 	}
+	shared := 0
+	if len(in.List) >= 4 {
+		rt := in.At(3)
+		if !rt.IsList || len(rt.List) != 2 || rt.At(0).Str() != "svc" || rt.At(1).Int() < 1 || rt.At(1).Int() > nSlots {
+			return "", fmt.Errorf("bad route %s", rt.String())
+		}
+		shared = rt.At(1).Int()
+	}
 	// drain anything a previous (failed) case may have left behind
 	for drained := false; !drained; {
 		select {
@@ -267,7 +400,7 @@ func (g *rig) runCase(input string) (string, error) {
 			drained = true
 		}
 	}
-	k := &controller{g: g, store: store}
+	k := &controller{g: g, store: store, shared: shared, nSteps: len(in.At(2).List), returns: make(chan int, n+1)}
 	for i := 0; i < n; i++ {
 		k.cs = append(k.cs, &callerRT{start: -1, end: -1, trace: sx.L()})
 	}
@@ -288,24 +421,26 @@ func (g *rig) runCase(input string) (string, error) {
 		case "r":
 			if c.phase == phIdle {
 				if runErr = k.launch(ci, i); runErr == nil && c.phase == phPending {
-					runErr = k.answer(c, i, true)
+					runErr = k.answer(ci, i, true)
 				}
 			}
 		case "w":
 			if c.phase == phPending {
-				runErr = k.answer(c, i, true)
+				runErr = k.answer(ci, i, true)
 			}
 		case "e":
 			if c.phase == phIdle {
 				if runErr = k.launch(ci, i); runErr == nil && c.phase == phPending {
-					runErr = k.answer(c, i, false)
+					runErr = k.answer(ci, i, false)
 				}
 			} else if c.phase == phPending {
-				runErr = k.answer(c, i, false)
+				runErr = k.answer(ci, i, false)
 			}
 		case "x":
 			if c.phase == phIdle || c.phase == phPending {
 				c.phase = phDead // a parked request stays parked: it is never processed
+			} else if c.phase == phSilent {
+				runErr = fmt.Errorf("c07 harness: inconclusive: crash step for a caller that has shown no event within the ceiling")
 			}
 		case "f":
 			raw := st.At(1).Str()
@@ -319,22 +454,50 @@ func (g *rig) runCase(input string) (string, error) {
 			break
 		}
 	}
-	// teardown: whoever is still parked is refused until its goroutine returns (results discarded)
+	// the schedule is over. A caller still silent may yet return BY ITSELF (nothing is answered or
+	// refused meanwhile): that return is an event like any other. One that does not ⇒ inconclusive.
+	for runErr == nil && k.anySilent() {
+		ev := k.next(nil)
+		switch ev.kind {
+		case evReturn:
+			runErr = k.returned(ev)
+		case evArrival:
+			ev.rq.reply <- response{code: 500, body: []byte("simulation over")}
+			runErr = errAmbiguous
+		case evCeiling:
+			runErr = fmt.Errorf("c07 harness: inconclusive: a caller showed no event (no request, no return) within the ceiling and had not returned when the schedule was over")
+		}
+	}
+	// teardown: whoever is still parked is refused, and so is every request that still arrives,
+	// until every goroutine has returned (results discarded)
 	for _, c := range k.cs {
-		req := c.req
-		for tries := 0; req != nil && tries < 8; tries++ {
-			req.reply <- response{code: 500, body: []byte("simulation over")}
-			rq, _, done, err := k.await(c.resCh)
-			if err != nil {
-				return "", err
-			}
-			if done {
-				req = nil
-			} else {
-				req = rq
+		if c.req != nil {
+			c.req.reply <- response{code: 500, body: []byte("simulation over")}
+			c.req = nil
+		}
+	}
+	live := func() bool {
+		for _, c := range k.cs {
+			if c.live {
+				return true
 			}
 		}
-		if req != nil {
+		return false
+	}
+	for tries := 0; live(); tries++ {
+		ev := k.next(nil)
+		switch ev.kind {
+		case evReturn:
+			k.cs[ev.ci].live = false
+		case evArrival:
+			ev.rq.reply <- response{code: 500, body: []byte("simulation over")}
+		case evCeiling:
+			if runErr != nil {
+				return "", runErr
+			}
+			return "", fmt.Errorf("c07 harness: inconclusive: a caller does not return although every request of it has been refused")
+		}
+		if tries > 64*(n+1) {
 			return "", fmt.Errorf("c07 harness: caller keeps sending requests")
 		}
 	}
@@ -361,6 +524,8 @@ func (g *rig) runCase(input string) (string, error) {
 			} else {
 				status = sx.L(sx.A("err"), sx.A(cls), sx.U64(uint64(c.res.value)))
 			}
+		default:
+			return "", fmt.Errorf("c07 harness: inconclusive: caller %d in phase %d when the observation is written", i, c.phase)
 		}
 		calls.Add(sx.L(sx.I(i), status, dashOr(c.start), dashOr(end), c.trace))
 	}
